@@ -240,3 +240,316 @@ Section LetSim.
       destruct Hrel as [Hf1 Hv1]. split; [exact Hf1 | exact Hv1].
   Qed.
 End LetSim.
+
+(* ------------------------------------------------------------------ *)
+(* the PRINT statement *)
+
+Inductive mitem := MExpr (e : expr) | MSemi | MComma.
+
+Fixpoint tr_items (items : list pitem) : option (list mitem) :=
+  match items with
+  | [] => Some []
+  | PSemi :: r => option_map (cons MSemi) (tr_items r)
+  | PComma :: r => option_map (cons MComma) (tr_items r)
+  | PExpr e :: r => match tr e, tr_items r with
+                    | Some e', Some r' => Some (MExpr e' :: r')
+                    | _, _ => None
+                    end
+  end.
+
+(* what follows a PRINT's items: the end of the line, a colon, or ELSE *)
+Definition ends (rest : list token) : bool :=
+  match rest with [] | TColon :: _ | TElse :: _ => true | _ => false end.
+
+(* a legal token spelling of a PRINT item list, followed by [rest] *)
+Inductive IRenders (rest : list token) : list mitem -> list token -> Prop :=
+| IR_nil : ends rest = true -> IRenders rest [] []
+| IR_semi r ts : IRenders rest r ts -> IRenders rest (MSemi :: r) (TSemicolon :: ts)
+| IR_comma r ts : IRenders rest r ts -> IRenders rest (MComma :: r) (TComma :: ts)
+| IR_expr e te r ts : Renders 0 e te -> stops 0 (ts ++ rest) = true -> IRenders rest r ts ->
+    IRenders rest (MExpr e :: r) (te ++ ts).
+
+(* the fold the PRINT loop computes *)
+Fixpoint pden (s : interp) (items : list mitem) (semi : bool) (text : bytes) : res (bool * bytes) :=
+  match items with
+  | [] => Ok (semi, text)
+  | MSemi :: r => pden s r true text
+  | MComma :: r => pden s r false (text ++ [9%N])
+  | MExpr e :: r =>
+      match den s e with
+      | Ok v => pden s r false (text ++ show_value v)
+      | Err er l => Err er l
+      | Panic p => Panic p
+      | OutOfFuel => OutOfFuel
+      | OracleMiss => OracleMiss
+      end
+  end.
+
+Fixpoint idepth (items : list mitem) : nat :=
+  match items with
+  | [] => 0
+  | MExpr e :: r => Nat.max (pdepth e) (idepth r)
+  | _ :: r => idepth r
+  end.
+
+(* the first token of an expression is none of the tokens the PRINT loop looks for *)
+Definition starts_item (t : token) : Prop :=
+  match t with TColon | TElse | TSemicolon | TComma => False | _ => True end.
+
+Lemma renders_head k e ts : Renders k e ts -> exists t ts', ts = t :: ts' /\ starts_item t.
+Proof.
+  induction 1 as [x|b|name|e ts H IH|e ts H IH|e ts H IH|op e ts H IH|op a b ta tb Ha IHa Hb IHb|k e ts Hk H IH].
+  - eexists _, _; split; [reflexivity | exact I].
+  - eexists _, _; split; [reflexivity | exact I].
+  - eexists _, _; split; [reflexivity | exact I].
+  - eexists _, _; split; [reflexivity | exact I].
+  - eexists _, _; split; [reflexivity | exact I].
+  - eexists _, _; split; [reflexivity | exact I].
+  - eexists _, _; split; [reflexivity | destruct op; exact I].
+  - destruct IHa as (t & ts' & -> & Ht). eexists _, _; split; [reflexivity | exact Ht].
+  - exact IH.
+Qed.
+
+Lemma bind_ret' {A B} (a : A) (K : A -> M B) s : bind (ret a) K s = K a s.
+Proof. reflexivity. Qed.
+
+Section PrintSim.
+  Variable s : interp.
+  Variable toks : list token.
+  Hypothesis Htoks : fst (cur_tokens s) = Ok toks.
+
+  Definition pbody (F nest : nat) (st : bool * bytes) : M ((bool * bytes) + (bool * bytes)) :=
+    let '(semi, text) := st in
+    t <- peek_next_token ;;
+    match t with
+    | None => ret (inr st)
+    | Some TColon => ret (inr st)
+    | Some TElse => ret (inr st)
+    | Some TSemicolon => next_token ;;; ret (inl (true, text))
+    | Some TComma => next_token ;;; ret (inl (false, text ++ [9%N]))
+    | Some _ => v <- Eval.expr F nest ;; ret (inl (false, text ++ show_value v))
+    end.
+
+  Lemma print_is_pbody F nest :
+    evaluate_print_statement F nest =
+    (r <- repeat_m F (pbody F nest) (false, []) ;;
+     let '(semi, text) := r in push_output (OPrint (if semi then text else text ++ [10%N]))).
+  Proof. reflexivity. Qed.
+
+  (* the loop, from any accumulator, over any legal spelling of the items *)
+  Lemma print_loop rest items ts : IRenders rest items ts ->
+    forall nest i, nest + idepth items < max_nesting -> skipn i toks = ts ++ rest ->
+    exists K0 F0, forall F, F0 <= F -> forall k, K0 <= k -> forall semi text r o,
+      exists i' r' o', W s o o' /\
+        repeat_m k (pbody F nest) (semi, text) (at_idx s i r o) =
+        match pden s items semi text with
+        | Ok st => (Ok st, at_idx s (i + length ts) r' o')
+        | Err er l => (Err er l, at_idx s i' r' o')
+        | Panic p => (Panic p, at_idx s i' r' o')
+        | OutOfFuel => (OutOfFuel, at_idx s i' r' o')
+        | OracleMiss => (OracleMiss, at_idx s i' r' o')
+        end.
+  Proof.
+    induction 1 as [Hend|r0 ts H IH|r0 ts H IH|e te r0 ts He Hst H IH]; intros nest i Hn Hsk.
+    - exists 1, 0. intros F _ k Hk semi text r o. destruct k as [|k]; [lia|].
+      exists i, (S r), o. split; [apply W_refl|].
+      rewrite repeat_m_S. unfold pbody at 1. rewrite bind_assoc.
+      erewrite bind_ok by apply (peek_at s toks Htoks).
+      cbn [app] in Hsk. cbn [pden length]. rewrite Nat.add_0_r.
+      destruct rest as [|t rest'].
+      + rewrite (skipn_nil_nth _ _ Hsk). reflexivity.
+      + destruct (skipn_cons_nth _ _ _ _ Hsk) as [Hnth _]. rewrite Hnth.
+        destruct t; try discriminate Hend; reflexivity.
+    - cbn [idepth] in Hn. cbn [app] in Hsk. destruct (skipn_cons_nth _ _ _ _ Hsk) as [Hnth Hsk'].
+      destruct (IH nest (S i) Hn Hsk') as (K0 & F0 & HI).
+      exists (S K0), F0. intros F HF k Hk semi text r o. destruct k as [|k]; [lia|].
+      destruct (HI F HF k ltac:(lia) true text (S (S r)) o) as (i' & r' & o' & HW & Hrun).
+      exists i', r', o'. split; [exact HW|].
+      rewrite repeat_m_S. unfold pbody at 1. rewrite bind_assoc.
+      erewrite bind_ok by apply (peek_at s toks Htoks). rewrite Hnth. cbv iota. rewrite bind_assoc.
+      erewrite bind_ok by (apply (next_some s toks Htoks); exact Hnth).
+      rewrite bind_ret'. refine (eq_trans Hrun _).
+      cbn [pden length]. replace (S i + length ts) with (i + S (length ts)) by lia. reflexivity.
+    - cbn [idepth] in Hn. cbn [app] in Hsk. destruct (skipn_cons_nth _ _ _ _ Hsk) as [Hnth Hsk'].
+      destruct (IH nest (S i) Hn Hsk') as (K0 & F0 & HI).
+      exists (S K0), F0. intros F HF k Hk semi text r o. destruct k as [|k]; [lia|].
+      destruct (HI F HF k ltac:(lia) false (text ++ [9%N]) (S (S r)) o) as (i' & r' & o' & HW & Hrun).
+      exists i', r', o'. split; [exact HW|].
+      rewrite repeat_m_S. unfold pbody at 1. rewrite bind_assoc.
+      erewrite bind_ok by apply (peek_at s toks Htoks). rewrite Hnth. cbv iota. rewrite bind_assoc.
+      erewrite bind_ok by (apply (next_some s toks Htoks); exact Hnth).
+      rewrite bind_ret'. refine (eq_trans Hrun _).
+      cbn [pden length]. replace (S i + length ts) with (i + S (length ts)) by lia. reflexivity.
+    - cbn [idepth] in Hn.
+      assert (Hsk1 : skipn i toks = te ++ (ts ++ rest)) by (rewrite app_assoc; exact Hsk).
+      destruct (expr_sem_at s toks Htoks e te He nest i (ts ++ rest) Hsk1 Hst ltac:(lia)) as (fe & Hfe).
+      pose proof (skipn_app_len _ _ _ _ Hsk1) as Hsk2.
+      destruct (IH nest (i + length te) ltac:(lia) Hsk2) as (K0 & F0 & HI).
+      exists (S K0), (Nat.max fe F0). intros F HF k Hk semi text r o. destruct k as [|k]; [lia|].
+      destruct (renders_head _ _ _ He) as (t & te' & Ete & Ht).
+      assert (Hnth : nth_error toks i = Some t).
+      { rewrite Ete in Hsk1. cbn [app] in Hsk1. apply (skipn_cons_nth _ _ _ _ Hsk1). }
+      destruct (Hfe F ltac:(lia) (S r) o) as (i1 & r1 & o1 & Hev & Hi1 & HW1).
+      assert (Hstep : repeat_m (S k) (pbody F nest) (semi, text) (at_idx s i r o) =
+                      match den s e with
+                      | Ok v => repeat_m k (pbody F nest) (false, text ++ show_value v) (at_idx s i1 r1 o1)
+                      | Err er l => (Err er l, at_idx s i1 r1 o1)
+                      | Panic p => (Panic p, at_idx s i1 r1 o1)
+                      | OutOfFuel => (OutOfFuel, at_idx s i1 r1 o1)
+                      | OracleMiss => (OracleMiss, at_idx s i1 r1 o1)
+                      end).
+      { rewrite repeat_m_S. unfold pbody at 1. rewrite bind_assoc.
+        erewrite bind_ok by apply (peek_at s toks Htoks). rewrite Hnth. cbv iota.
+        match goal with |- bind ?m _ _ = _ =>
+          replace m with (v <- Eval.expr F nest ;; ret (@inl (bool * bytes) (bool * bytes) (false, text ++ show_value v)))
+            by (destruct t; try reflexivity; contradiction)
+        end.
+        rewrite bind_assoc. unfold Eval.expr. erewrite bind_run by exact Hev.
+        destruct (den s e) as [v|er l|pp| |]; try reflexivity. }
+      rewrite Hstep. cbn [pden].
+      destruct (den s e) as [v|er l|pp| |].
+      + rewrite (Hi1 v eq_refl).
+        destruct (HI F ltac:(lia) k ltac:(lia) false (text ++ show_value v) r1 o1) as (i' & r' & o' & HW & Hrun).
+        exists i', r', o'. split; [eapply W_trans; eassumption|].
+        refine (eq_trans Hrun _). rewrite app_length, Nat.add_assoc. reflexivity.
+      + exists i1, r1, o1. split; [exact HW1 | reflexivity].
+      + exists i1, r1, o1. split; [exact HW1 | reflexivity].
+      + exists i1, r1, o1. split; [exact HW1 | reflexivity].
+      + exists i1, r1, o1. split; [exact HW1 | reflexivity].
+  Qed.
+
+  (* model side: the PRINT statement on the token stream *)
+  Variables (items : list mitem) (ts rest : list token) (i : nat).
+  Hypothesis Htrace : enable_tracing s = false.
+  Hypothesis Hskip : skipn i toks = TPrint :: ts ++ rest.
+  Hypothesis Hren : IRenders rest items ts.
+  Hypothesis Hdepth : 1 + idepth items < max_nesting.
+
+  Lemma model_print : exists fuel0, forall fuel, fuel0 <= fuel -> forall r o,
+    exists i' r' o', W s o o' /\
+      evaluate_statement fuel 0 (at_idx s i r o) =
+      match pden s items false [] with
+      | Ok (semi, text) =>
+          (Ok tt, at_idx s (i + 1 + length ts) r' (o' ++ [OPrint (if semi then text else text ++ [10%N])]))
+      | Err er l => (Err er l, at_idx s i' r' o')
+      | Panic pp => (Panic pp, at_idx s i' r' o')
+      | OutOfFuel => (OutOfFuel, at_idx s i' r' o')
+      | OracleMiss => (OracleMiss, at_idx s i' r' o')
+      end.
+  Proof.
+    destruct (skipn_cons_nth _ _ _ _ Hskip) as [H0 Hs1].
+    destruct (print_loop rest items ts Hren 1 (S i) Hdepth Hs1) as (K0 & F0 & HL).
+    exists (S (Nat.max K0 F0)). intros fuel Hf r o.
+    destruct fuel as [|f]; [lia|].
+    destruct (HL f ltac:(lia) f ltac:(lia) false [] (S r) o) as (i' & r' & o' & HW & Hrun).
+    exists i', r', o'. split; [exact HW|].
+    cbn [evaluate_statement]. change (Nat.eqb 0 max_nesting) with false. cbv iota.
+    unfold evaluate_statement_body.
+    rewrite bind_get_run. change (enable_tracing (at_idx s i r o)) with (enable_tracing s).
+    rewrite Htrace. cbv iota.
+    rewrite (bind_ok _ _ _ _ _ (eq_refl : ret tt (at_idx s i r o) = (Ok tt, at_idx s i r o))).
+    erewrite bind_ok by (apply (next_some s toks Htoks); exact H0). cbv iota beta.
+    rewrite print_is_pbody.
+    destruct (pden s items false []) as [[semi text]|er l|pp| |]; (erewrite bind_run by exact Hrun); try reflexivity.
+    unfold push_output, modify. cbn [fst snd].
+    replace (S i + length ts) with (i + 1 + length ts) by lia. reflexivity.
+  Qed.
+End PrintSim.
+
+(* reference side *)
+Fixpoint isize (items : list pitem) : nat :=
+  match items with
+  | [] => 0
+  | PExpr e :: r => Nat.max (xsize e) (isize r)
+  | _ :: r => isize r
+  end.
+
+Lemma ref_print_items F st s : same_store st s ->
+  forall items mitems, tr_items items = Some mitems -> isize items <= F ->
+  forall semi text,
+  print_items F st items semi text =
+  match pden s mitems semi text with
+  | Ok st' => EOk st' st
+  | Err er _ => EErr (rerr_of er) None
+  | _ => EFuel
+  end.
+Proof.
+  intros Hrel. induction items as [|it items IH]; intros mitems Htr HF semi text.
+  - inversion Htr; subst. reflexivity.
+  - destruct it as [e| |]; cbn [tr_items] in Htr; cbn [isize] in HF.
+    + destruct (tr e) as [e'|] eqn:Ee; [|discriminate].
+      destruct (tr_items items) as [r'|] eqn:Er; [|discriminate].
+      inversion Htr; subst mitems. cbn [print_items pden]. unfold RefSem.ev.
+      rewrite (ref_expr_is_den e e' st s F Ee (same_store_reads _ _ Hrel) ltac:(lia)).
+      pose proof (den_plain s e e' Ee) as Hp.
+      destruct (den s e') as [v|er l|pp| |]; cbn [conv plain] in *; try contradiction.
+      * apply (IH r' eq_refl ltac:(lia)).
+      * destruct er; try contradiction; destruct l; try contradiction; reflexivity.
+    + destruct (tr_items items) as [r'|] eqn:Er; [|discriminate]. inversion Htr; subst mitems.
+      cbn [print_items pden]. apply (IH r' eq_refl HF).
+    + destruct (tr_items items) as [r'|] eqn:Er; [|discriminate]. inversion Htr; subst mitems.
+      cbn [print_items pden]. apply (IH r' eq_refl HF).
+Qed.
+
+Lemma pden_plain s : forall items mitems, tr_items items = Some mitems ->
+  forall semi text, match pden s mitems semi text with
+                    | Ok _ => True
+                    | Err ETypeMismatch None | Err EDivisionByZero None => True
+                    | _ => False
+                    end.
+Proof.
+  induction items as [|it items IH]; intros mitems Htr semi text.
+  - inversion Htr; subst. exact I.
+  - destruct it as [e| |]; cbn [tr_items] in Htr.
+    + destruct (tr e) as [e'|] eqn:Ee; [|discriminate].
+      destruct (tr_items items) as [r'|] eqn:Er; [|discriminate].
+      inversion Htr; subst mitems. cbn [pden].
+      pose proof (den_plain s e e' Ee) as Hp.
+      destruct (den s e') as [v|er l|pp| |]; cbn [plain] in Hp; try contradiction; [apply (IH r' eq_refl)|exact Hp].
+    + destruct (tr_items items) as [r'|] eqn:Er; [|discriminate]. inversion Htr; subst mitems.
+      cbn [pden]. apply (IH r' eq_refl).
+    + destruct (tr_items items) as [r'|] eqn:Er; [|discriminate]. inversion Htr; subst mitems.
+      cbn [pden]. apply (IH r' eq_refl).
+Qed.
+
+(* The simulation step for PRINT: the reference interpreter appends one output
+   record; the model pushes one Print record with the same text (behind any
+   warnings); stores and the relation are untouched; the cursor is just past
+   the statement.  Or both fail with the same error kind. *)
+Theorem print_statement_simulates s toks items mitems ts rest i p after li st :
+  fst (cur_tokens s) = Ok toks -> enable_tracing s = false ->
+  skipn i toks = TPrint :: ts ++ rest ->
+  tr_items items = Some mitems -> IRenders rest mitems ts -> 1 + idepth mitems < max_nesting ->
+  same_store st s ->
+  exists fuel0, forall fuel, fuel0 <= fuel -> forall r o,
+    match exec (isize items) p (SPrint items) after li st with
+    | Next pc st' =>
+        pc = after /\
+        exists text, st' = add_out text st /\
+        exists s' ow r', evaluate_statement fuel 0 (at_idx s i r o) = (Ok tt, s')
+          /\ W s o ow
+          /\ s' = at_idx s (i + 1 + length ts) r' (ow ++ [OPrint text])
+          /\ same_store st' s'
+    | Fail er line st' =>
+        line = line_no p li /\ st' = st /\
+        exists ie l s', evaluate_statement fuel 0 (at_idx s i r o) = (Err ie l, s')
+          /\ rerr_of ie = er /\ same_store st s'
+    | Done _ | NoFuel => False
+    end.
+Proof.
+  intros Htoks Htrace Hskip Htr Hren Hdepth Hrel.
+  destruct (model_print s toks Htoks mitems ts rest i Htrace Hskip Hren Hdepth) as (f0 & Hm).
+  exists f0. intros fuel Hf r o.
+  destruct (Hm fuel Hf r o) as (i' & r' & o' & HW & Hrun). clear Hm.
+  cbn [exec].
+  rewrite (ref_print_items (isize items) st s Hrel items mitems Htr (le_n _) false []).
+  pose proof (pden_plain s items mitems Htr false []) as Hp.
+  destruct (pden s mitems false []) as [[semi text]|er l|pp| |]; try contradiction.
+  - split; [reflexivity|]. eexists. split; [reflexivity|].
+    eexists _, o', r'. split; [exact Hrun|]. split; [exact HW|]. split; [reflexivity|].
+    destruct Hrel as [Hf1 Hv1]. split; [exact Hf1 | exact Hv1].
+  - destruct er; try contradiction; destruct l; try contradiction;
+      (split; [reflexivity|]; split; [reflexivity|];
+       eexists _, _, _; split; [exact Hrun|]; split; [reflexivity|];
+       destruct Hrel as [Hf1 Hv1]; split; [exact Hf1 | exact Hv1]).
+Qed.
